@@ -14,7 +14,8 @@ IN_REPO = "--in-repo" in sys.argv      # literal procedure: git -C /repo apply, 
 RERUN = "--rerun" in sys.argv          # only re-run the checks against an already confirmed seed in /verif/seeded
 pid, k = args[0], args[1]
 ids = args[2:] or [pid]
-ROUND = 4 if "--round4" in sys.argv else (3 if "--round3" in sys.argv else (2 if "--round2" in sys.argv else 1))   # later-round worktrees /tmp/seed<N>-<PID>, kept as seeded/<PID>-r<N>-<k>
+_m = [a for a in sys.argv if re.fullmatch(r"--round\d+", a)]
+ROUND = int(_m[0][7:]) if _m else 1   # later-round worktrees /tmp/seed<N>-<PID>, kept as seeded/<PID>-r<N>-<k>
 WT = ("/tmp/seed%d-%s" % (ROUND, pid)) if ROUND > 1 else "/tmp/seed-%s" % pid
 TAG = "%s-r%d-%s" % (pid, ROUND, k) if ROUND > 1 else "%s-%s" % (pid, k)
 SEED = os.path.join(WT, "SEED")
